@@ -349,8 +349,9 @@ def summarize_run(res, prop, findings, nontrivial=True, sample=None, extra_probe
         "broker_ops": len(sim.broker.oplog),
         "interleavings": [oh],
         "distinct": [sha([scenario_hash or "", oh])] if nontrivial else [],
-        "faults": dict((k, v) for k, v in sim.stats.items() if k in ("crash", "stall", "node_sys_exit",
-                                                                       "callback_exception")),
+        "faults": dict((k, v) for k, v in sim.stats.items() if k in ("crash", "restart", "stall", "node_sys_exit",
+                                                                       "callback_exception", "poison-message",
+                                                                       "raw-start-event") or k.startswith("worker-")),
         "probes": dict(extra_probes or {}),
         "findings": findings,
         "sample": sample,
